@@ -298,8 +298,12 @@ def rebuild_worker(ob):
                 if orig.variant == "Ok":
                     f = dict(zip(S.structs["NamedCal"], orig.fields[0].fields))
                     model_ = Struct("NamedCalDataModel", [f["name"]])      # what is saved: the name only
-                    back = m.call_text("<NamedCal as From<NamedCalDataModel>>::from", [model_], [parse_type("NamedCalDataModel")], parse_type("NamedCal"))
-                    props.append(("rebuilt calendar is structurally equal to the original (name, members, settlement calendars)", deep_eq(m, back, orig.fields[0])))
+                    form, back = rebuild_on_load(m, "NamedCal", model_)
+                    if form == "try_from":
+                        props.append(("the saved form of a valid calendar loads", back.variant == "Ok"))
+                        back = back.fields[0] if back.variant == "Ok" else None
+                    if back is not None:
+                        props.append(("rebuilt calendar is structurally equal to the original (name, members, settlement calendars)", deep_eq(m, back, orig.fields[0])))
             else:
                 pairs, base, k = ob["pairs"], ob["base"], ob["k"]
                 q = len(pairs)
@@ -316,7 +320,12 @@ def rebuild_worker(ob):
                     m.call_text("FXRates::update", [Ref(cell, (), True), Seq(upd)], [parse_type("&mut FXRates"), parse_type("Vec<FXRate>")], parse_type("Result<(), PyErr>"))
                 f = dict(zip(S.structs["FXRates"], cell.v.fields))
                 model_ = Struct("FXRatesDataModel", [f["fx_rates"], f["currencies"]])     # what is saved: quotes and currency order
-                back = m.call_text("<FXRates as From<FXRatesDataModel>>::from", [model_], [parse_type("FXRatesDataModel")], parse_type("FXRates"))
+                form, back = rebuild_on_load(m, "FXRates", model_)
+                if form == "try_from":
+                    props.append(("the saved form of a valid market loads", back.variant == "Ok"))
+                    if back.variant != "Ok":
+                        raise RustPanic("the saved form of a valid market is refused on load")
+                    back = back.fields[0]
                 fb = dict(zip(S.structs["FXRates"], back.fields))
                 props.append(("same currencies in the same order", [c.fields[0].s for c in fb["currencies"].items] == [c.fields[0].s for c in f["currencies"].items]))
                 _, a1, _ = array_of(S, cell.v)
